@@ -169,7 +169,9 @@ def gen_case(rng):
         c["stop"] = rng.choice(["w1", "noparam2"])
     if rng.random() < 0.2:
         c["strict"] = False
-    if rng.random() < 0.2:
+    if graph and rng.random() < 0.15:
+        c["decomps"] = rng.choice(["fixed_cnot", "alt_isingxx", "fixed_h_alt_cnot"])
+    elif rng.random() < 0.2:
         c["mode"] = "gen"
         c["strict"] = rng.random() < 0.6
         c["custom"] = rng.random() < 0.3
@@ -210,6 +212,13 @@ CORPUS = [
      "gate_set": {"kind": "named", "name": "ROTATIONS_PLUS_CNOT"}, "nww": 1, "strict": True, "mode": "transform", "cols": []},
     {"ops": [{"t": "cond", "mw": 0, "b": {"t": "g", "n": "CRX", "p": [2 * math.atan2(3, 4)], "w": [1, 2]}}], "graph": False,
      "gate_set": {"kind": "named", "name": "ROTATIONS_PLUS_CNOT"}, "nww": 0, "strict": True, "mode": "transform", "cols": []},
+    {"ops": [{"t": "cond", "mw": 0, "b": {"t": "g", "n": "RX", "p": [2 * math.atan2(3, 4)], "w": [1]}}, {"t": "g", "n": "CRX", "p": [2 * math.atan2(3, 4)], "w": [1, 2]}],
+     "graph": True, "gate_set": {"kind": "named", "name": "ROTATIONS_PLUS_CNOT"}, "nww": 1, "strict": True, "mode": "transform", "cols": []},
+    # fixed / alternative decomposition options (graph only)
+    {"ops": [{"t": "g", "n": "CNOT", "p": [], "w": [0, 1]}, {"t": "g", "n": "IsingXX", "p": [2 * math.atan2(3, 4)], "w": [1, 0]}], "graph": True, "decomps": "fixed_cnot",
+     "gate_set": {"kind": "names", "names": ["RX", "RZ", "CZ", "GlobalPhase"]}, "nww": 0, "strict": True, "mode": "transform", "cols": [1, 2]},
+    {"ops": [{"t": "g", "n": "IsingXX", "p": [2 * math.atan2(3, 4)], "w": [1, 0]}, {"t": "g", "n": "Hadamard", "p": [], "w": [1]}], "graph": True, "decomps": "alt_isingxx",
+     "gate_set": {"kind": "names", "names": ["RX", "RZ", "CNOT", "GlobalPhase"]}, "nww": 0, "strict": True, "mode": "transform", "cols": [1, 2]},
     # generator driven directly: strict error / custom decomposer
     {"ops": [{"t": "pow", "z": -1, "b": {"t": "g", "n": "PSWAP", "p": [2 * math.atan2(4, 3)], "w": [0, 1]}}], "graph": False,
      "gate_set": {"kind": "named", "name": "ROTATIONS_PLUS_CNOT"}, "nww": 0, "strict": True, "mode": "gen", "cols": [0]},
@@ -222,7 +231,7 @@ CORPUS = [
 
 def run(ctx):
     ctx.coq_props()
-    n = 70 if ctx.tier == "quick" else 600
+    n = 64 if ctx.tier == "quick" else 600
     rng = ctx.rng
     cases = [json.loads(json.dumps(c)) for c in CORPUS]
     if getattr(ctx, "replay", None) and isinstance(ctx.replay.get("replay"), dict) and "case" in ctx.replay["replay"]:
@@ -233,7 +242,7 @@ def run(ctx):
     runs = out["runs"]
     hist = {"ok": 0, "error": 0, "graph_on": 0, "with_budget": 0, "maxexp": 0, "gen_mode": 0, "sem_numeric": 0, "sem_mcm": 0, "sem_exact": 0,
             "sem_not_exact": 0, "model_cases": 0, "estimate_compared": 0, "estimate_inexact_or_fallback": 0, "leftover_allowed": 0,
-            "early_return": 0, "nontrivial": 0, "errors_by_type": {}, "max_depth": 0, "nodes": 0, "non_decomposition_errors": 0}
+            "early_return": 0, "custom_decomps": 0, "estimate_premise_failed": 0, "nontrivial": 0, "errors_by_type": {}, "max_depth": 0, "nodes": 0, "non_decomposition_errors": 0}
     branches = {}
     key_of = lambda c: json.dumps(c, sort_keys=True)
     terms, term_idx, exact_jobs = [], [], []
@@ -248,6 +257,7 @@ def run(ctx):
         hist["with_budget"] += c.get("nww", 0) != 0
         hist["maxexp"] += c.get("maxexp") is not None
         hist["gen_mode"] += c.get("mode") == "gen"
+        hist["custom_decomps"] += bool(c.get("decomps"))
         cov = r["cov"]
         hist["early_return"] += bool(cov.get("early"))
         hist["max_depth"] = max(hist["max_depth"], cov.get("depth", 0))
@@ -297,6 +307,8 @@ def run(ctx):
                 if e["estimate"] != e["emitted"]:
                     ctx.violation("estimate:" + k[:300] + "|" + e["op"], {"case": c, "operator": e["op"], "resource_estimate": e["estimate"], "emitted": e["emitted"]},
                                   what="DecompGraphSolution.resource_estimate differs from the gates the transform emitted for this operator (all rules on the subtree declare exact resources)")
+            elif e["status"] == "declared-resources-differ":
+                hist["estimate_premise_failed"] += 1     # a rule flagged exact whose declared resources differ on this instance: premise of the clause fails (C11's subject)
             else:
                 hist["estimate_inexact_or_fallback"] += 1
     # exact reference for (b)
